@@ -1,0 +1,75 @@
+//go:build verif
+
+package logic
+
+// Verification hooks (build tag verif): add-only exports used by the /verif conformance harness.
+
+// VerifTick runs the body of one iteration of the 1-second tick loop of RunLoop (removal of
+// inactive groups, Group.Tick) so that a test can drive time deterministically.
+func (sm *ServerManager) VerifTick(tickCount uint32) {
+	sm.mutex.Lock()
+	defer sm.mutex.Unlock()
+	sm.groupManager.Iterate(func(group *Group) bool {
+		if group.IsInactive() {
+			group.Dispose()
+			return false
+		}
+		group.Tick(tickCount)
+		return true
+	})
+}
+
+// VerifGroupNames lists the stream names of the groups that currently exist.
+func (sm *ServerManager) VerifGroupNames() (names []string) {
+	sm.mutex.Lock()
+	defer sm.mutex.Unlock()
+	sm.groupManager.Iterate(func(group *Group) bool {
+		names = append(names, group.streamName)
+		return true
+	})
+	return
+}
+
+// VerifSnapshot is a read-only projection of the private bookkeeping of a group.
+func (group *Group) VerifSnapshot() map[string]interface{} {
+	group.mutex.Lock()
+	defer group.mutex.Unlock()
+	m := map[string]interface{}{
+		"rtmpPub":      group.rtmpPubSession != nil,
+		"rtspPub":      group.rtspPubSession != nil,
+		"custPub":      group.customizePubSession != nil,
+		"psPub":        group.psPubSession != nil,
+		"pullRtmp":     group.pullProxy.rtmpSession != nil,
+		"pullRtsp":     group.pullProxy.rtspSession != nil,
+		"pulling":      group.pullProxy.isSessionPulling,
+		"pullApi":      group.pullProxy.apiEnable,
+		"pullCount":    group.pullProxy.startCount,
+		"nRtmpSub":     len(group.rtmpSubSessionSet),
+		"nFlvSub":      len(group.httpflvSubSessionSet),
+		"nTsSub":       len(group.httptsSubSessionSet),
+		"nRtspSub":     len(group.rtspSubSessionSet),
+		"nHlsSub":      len(group.hlsSubSessionSet),
+		"hook":         group.customizeHookSessionContext != nil,
+		"tsRemuxer":    group.rtmp2MpegtsRemuxer != nil,
+		"rtspRemuxer":  group.rtmp2RtspRemuxer != nil,
+		"inRemuxer":    group.rtsp2RtmpRemuxer != nil,
+		"hlsMuxer":     group.hlsMuxer != nil,
+		"recFlv":       group.recordFlv != nil,
+		"recTs":        group.recordMpegts != nil,
+		"videoCodec":   group.stat.VideoCodec,
+		"audioCodec":   group.stat.AudioCodec,
+		"mergePending": 0,
+	}
+	npush, npushing := 0, 0
+	for _, v := range group.url2PushProxy {
+		if v.pushSession != nil {
+			npush++
+		}
+		if v.isPushing {
+			npushing++
+		}
+	}
+	m["nPush"] = npush
+	m["nPushing"] = npushing
+	return m
+}
